@@ -107,6 +107,8 @@ def gen_adapter(rng, end, name=None, allow_linked=True, allow_params=True, simpl
                 params += ";noindels"
             if kind == "front" and rng.random() < 0.1:
                 params += ";rightmost"
+            elif kind in ("front", "back") and rng.random() < 0.1:
+                params += ";anywhere"  # search parameter: the match may lie anywhere, removal stays 5'/3'
     spec = body + params
     if name:
         spec = f"{name}={spec}"
@@ -300,6 +302,15 @@ def out_name(rng, stem, fastq, out_containers, allow_fasta_for_fastq=True, cls=N
     return f"{SIMFS}{stem}{rng.choice(cls)}{rng.choice(out_containers)}"
 
 
+def ext_class(path):
+    base = fmt.strip_container(path).lower()
+    if base.endswith((".fasta", ".fa")):
+        return "fasta"
+    if base.endswith((".fastq", ".fq")):
+        return "fastq"
+    return None
+
+
 def out_class(rng, fastq, allow_fasta_for_fastq=True):
     """Extension class of one output (pair): both files of a pair get the same class --
     a pair of names asking for two different formats is not a documented request."""
@@ -347,6 +358,8 @@ def default_profile():
         revcomp_single_only=False,
         p_big=0.01,
         p_huge=0.004,
+        p_interleaved_redirect=0.3,
+        p_mixed_pair=0.0,  # -o x.fastq -p y.fasta: only the check that owns KF-C06-2 generates it
         upper_only=False,  # reads over ACGTN only
     )
 
@@ -537,14 +550,17 @@ def gen_case(rng, profile=None):
     if demux == "normal":
         ext = rng.choice(OUT_EXT_FASTQ if fastq else OUT_EXT_FASTA) + rng.choice(OC)
         if paired:
-            outs.append(["-o", f"{SIMFS}dm_{{name}}_1{ext}"])
-            outs.append(["-p", f"{SIMFS}dm_{{name}}_2{ext}"])
+            twice = "_{name}" if rng.random() < 0.12 else ""
+            outs.append(["-o", f"{SIMFS}dm_{{name}}{twice}_1{ext}"])
+            outs.append(["-p", f"{SIMFS}dm_{{name}}{twice}_2{ext}"])
         else:
-            outs.append(["-o", f"{SIMFS}dm_{{name}}{ext}"])
+            twice = "_{name}" if rng.random() < 0.12 else ""
+            outs.append(["-o", f"{SIMFS}dm_{{name}}{twice}{ext}"])
     elif demux == "combinatorial":
         ext = rng.choice(OUT_EXT_FASTQ if fastq else OUT_EXT_FASTA) + rng.choice(OC)
-        outs.append(["-o", f"{SIMFS}cd_{{name1}}-{{name2}}_1{ext}"])
-        outs.append(["-p", f"{SIMFS}cd_{{name1}}-{{name2}}_2{ext}"])
+        twice = "_{name2}{name1}" if rng.random() < 0.12 else ""
+        outs.append(["-o", f"{SIMFS}cd_{{name1}}-{{name2}}{twice}_1{ext}"])
+        outs.append(["-p", f"{SIMFS}cd_{{name1}}-{{name2}}{twice}_2{ext}"])
     else:
         if paired:
             if rng.random() < P["p_interleaved_out"]:
@@ -555,8 +571,11 @@ def gen_case(rng, profile=None):
                     outs.append(["-o", out_name(rng, "out_il", fastq, OC, allowfa)])
             else:
                 pc = out_class(rng, fastq, allowfa)
+                pc2 = pc
+                if fastq and rng.random() < P["p_mixed_pair"]:
+                    pc2 = OUT_EXT_FASTA if pc is OUT_EXT_FASTQ else OUT_EXT_FASTQ  # known finding KF-C06-2
                 outs.append(["-o", out_name(rng, "out1", fastq, OC, allowfa, cls=pc)])
-                outs.append(["-p", out_name(rng, "out2", fastq, OC, allowfa, cls=pc)])
+                outs.append(["-p", out_name(rng, "out2", fastq, OC, allowfa, cls=pc2)])
         else:
             if rng.random() < P["p_stdout"]:
                 if fastq and rng.random() < 0.4:
@@ -619,6 +638,19 @@ def gen_case(rng, profile=None):
     inp = gen_input(rng, paired, fastq, P["in_containers"], p_interleaved_fasta=P["p_interleaved_fasta"])
     if inp["layout"] == "interleaved" or interleaved_out:
         outs.append(["--interleaved"])
+    if inp["layout"] == "interleaved" and paired and not interleaved_out and demux != "combinatorial":
+        # with --interleaved given for the input, a redirect/untrimmed option may be used WITHOUT its
+        # -paired- counterpart: that file is then written interleaved while the main output is two files
+        for flag in ("--too-short-paired-output", "--too-long-paired-output", "--untrimmed-paired-output"):
+            if any(g[0] == flag for g in outs) and rng.random() < P["p_interleaved_redirect"]:
+                if flag == "--untrimmed-paired-output" and demux:
+                    # R2 of the untrimmed pairs then goes to the 'unknown' file of the -p template:
+                    # only done when both names ask for the same format (see KF-C06-2)
+                    uo_ = next(g[1] for g in outs if g[0] == "--untrimmed-output")
+                    tp_ = next(g[1] for g in outs if g[0] == "-p")
+                    if ext_class(uo_) != ext_class(tp_):
+                        continue
+                outs = [g for g in outs if g[0] != flag]
 
     case = {
         "fmt": "fastq" if fastq else "fasta",
